@@ -180,6 +180,29 @@ def install_c05(ctx, prop="C05"):
         def post(args, kwargs, r):
             if iv.readable(r) and all(iv.readable(x) for x in args[:2]):
                 check_canonical(ctx, name, r, args[:2], prop)
+                # the statement itself: (a & b).is_empty() iff no version satisfies both; (a | b).is_any() iff every
+                # version satisfies one of them - decided on the operands' own critical points
+                if len(args) >= 2 and name.endswith(("__and__", "__or__")):
+                    a, b = args[0], args[1]
+                    pts = iv.points(a, b, r)
+                    va, vb = iv.vector(a, pts), iv.vector(b, pts)
+                    try:
+                        if name.endswith("__and__"):
+                            exp = not any(x and y for x, y in zip(va, vb))
+                            got = bool(r.is_empty())
+                            what = "(a & b).is_empty() disagrees with the operands"
+                        else:
+                            exp = all(x or y for x, y in zip(va, vb))
+                            got = bool(r.is_any())
+                            what = "(a | b).is_any() disagrees with the operands"
+                    except Exception as ex:  # noqa: BLE001
+                        violation(prop, name, f"is_empty/is_any raised {type(ex).__name__}", {"result": iv.describe(r)})
+                        return
+                    ctx.evaluations += 1
+                    if got != exp:
+                        violation(prop, name, what, {"a": iv.describe(a), "b": iv.describe(b), "result": iv.describe(r),
+                                                     "reported": got, "expected": exp, "group": "vs-operands"},
+                                  live={"result": r, "x": a, "y": b})
         return post
 
     def post_parse(args, kwargs, r):
